@@ -117,8 +117,10 @@ let content_case (c : case) (out : out_channel) =
        | Some (((cl, bl), loc), data) ->
          (match loc with
           | CRaw (_, len) -> Printf.fprintf out "%s loc %d %s %s raw %s\n" c.id i (string_of_n cl) (string_of_n bl) (string_of_n len)
-          | CComp (algo, _, _, _, _, len) ->
-            Printf.fprintf out "%s loc %d %s %s comp:%s %s\n" c.id i (string_of_n cl) (string_of_n bl) (string_of_n algo) (string_of_n len));
+          | CComp (algo, _, plen, dsize, _, len) ->
+            Printf.fprintf out "%s loc %d %s %s comp:%s %s\n" c.id i (string_of_n cl) (string_of_n bl) (string_of_n algo) (string_of_n len);
+            (* stored (compressed) size and plain size of the cluster holding it *)
+            Printf.fprintf out "%s stored %d %s %s\n" c.id i (string_of_n plen) (string_of_n dsize));
          (match data with
           | Some d -> Printf.fprintf out "%s content %d %s\n" c.id i (show (ibytes d))
           | None -> ())
